@@ -1175,7 +1175,7 @@ func runDominatingRestoreIn(c *Ctx, rule, fname, field string, inLit bool) []Obl
 					continue
 				}
 				n++
-				construct := ord.next("call " + callee.Name())
+				construct := ord.next("call " + shortName(callee))
 				dom := false
 				for _, r := range restores {
 					if fc.Dominates(r.loc, Loc{b, i}) {
